@@ -232,12 +232,12 @@ pub fn run(ctx: &Ctx, st: &mut Stats) {
     }
     // month arithmetic through the three types
     let mstride = ctx.tier.pick(20_011, ctx.q(11, 3), 1);
-    let offs: Vec<i64> = (-14..=14).chain([-1200, 1200, -119_988, 119_988, 24, -24, 120, -120, YM_LIM as i64, -(YM_LIM as i64)]).collect();
+    let offs: Vec<i64> = (-14..=14).chain([-1200, 1200, -119_988, 119_988, 24, -24, 120, -120, YM_LIM as i64, -(YM_LIM as i64), 48, -48, 96, -96, 2400, -2400, 3600, -3600, 4800, -4800, 12 * 104, -12 * 104, 12 * 96, -12 * 96]).collect();
     let offs_ref = &offs;
     ctx.par(st, "dates x month offsets: Date/OracleDate vs Timestamp", true, 0, N_DAYS as i64, |st, i, rng| {
         let n = MIN_DAY as i64 + i;
         let (_, _, d) = cal().of(n as i32);
-        if i % mstride != 0 && !(d >= 28 && ctx.tier != Tier::San && i % 3 == 0) {
+        if i % mstride != 0 && !(d >= 28 && ctx.tier != Tier::San) {
             return;
         }
         for &k in offs_ref {
